@@ -268,7 +268,8 @@ pub fn gen_filter(rng: &mut Rng, sk_is_lock: bool, c: Option<&Cell>, m: &Model, 
                     Some(Mode::Partial) => 1,
                     _ => 0,
                 };
-                let mut v = slice_of(rng, &d, if rng.chance(800, 1000) { how } else { rng.below(3) });
+                let how = if rng.chance(800, 1000) { how } else { rng.below(3) };
+                let mut v = slice_of(rng, &d, how);
                 if rng.chance(80, 1000) {
                     v.push(0x5a);
                 }
